@@ -930,6 +930,77 @@ Proof.
   intros W Hh Nm [H|H]; unfold parse in H; simpl in H; exact (config_name_wins fuel env p c n cfg W Hh Nm H).
 Qed.
 
+(* "else the one named in the ... environment": parser.parse_env(mapping) *)
+Lemma opts_loop_inv (e : cobj) dest : forall (l : list (str * Z)) c c',
+  (forall k, In k (map fst l) -> k <> dest) ->
+  (fix opts (l : list (str * Z)) (c : ns) : res ns :=
+     match l with
+     | [] => Ok c
+     | (k, _) :: t =>
+         match assoc k e with
+         | Some (CInt z) => opts t (set k (NInt z) c)
+         | Some (CStr _) => Err BadValue
+         | _ => opts t c
+         end
+     end) l c = Ok c' ->
+  get dest c' = get dest c /\ (NoDup (map fst c) -> NoDup (map fst c')).
+Proof.
+  induction l as [|[k d] t IH]; intros c c' Hk H.
+  - inversion H; subst. auto.
+  - assert (Kd : k <> dest) by (apply Hk; left; reflexivity).
+    assert (Ht : forall k0, In k0 (map fst t) -> k0 <> dest) by (intros k0 I; apply Hk; right; exact I).
+    destruct (assoc k e) as [[z|s0|l0]|].
+    + destruct (IH _ _ Ht H) as [G N]. split.
+      * rewrite G, get_set, str_eqb_neq; [reflexivity|]. intro E; apply Kd; auto.
+      * intro Nc. apply N. apply set_nodup. exact Nc.
+    + discriminate.
+    + exact (IH _ _ Ht H).
+    + exact (IH _ _ Ht H).
+Qed.
+
+Lemma assoc_some {A} n (l : list (str * A)) : In n (map fst l) -> exists v, assoc n l = Some v.
+Proof.
+  induction l as [|[k v] t IH]; simpl; [intros []|].
+  intro I. destruct (str_eqb n k) eqn:E; [eauto|].
+  destruct I as [I|I]; [subst; rewrite str_eqb_refl in E; discriminate|auto].
+Qed.
+
+Lemma load_env_vars_names penv p m n cfg_env :
+  wf p -> p_has p = true -> named_in (p_dest p) m = Some n -> In n (p_names p) ->
+  load_env_vars penv p m = Ok cfg_env ->
+  get (p_dest p) cfg_env = Some (NStr n) /\ NoDup (map fst cfg_env).
+Proof.
+  intros W Hh Nm In_ H. unfold load_env_vars in H. rewrite Hh in H.
+  unfold named_in in Nm. destruct (assoc (p_dest p) m) as [[z|v|l]|]; try discriminate. inversion Nm; subst v.
+  destruct (assoc_some n (p_choices p) In_) as [sp A]. rewrite A in H.
+  destruct (penv n sp (env_sub m n)) as [pcfg|]; [|discriminate].
+  assert (Nd : n <> p_dest p) by (intro E; apply (wf_dest_not_name p W); rewrite <- E; exact In_).
+  match type of H with _ (p_opts p) ?c1 = _ =>
+    assert (C1 : get (p_dest p) c1 = Some (NStr n) /\ NoDup (map fst c1)) end.
+  { destruct pcfg as [|kv pt].
+    - simpl. rewrite str_eqb_refl. split; [reflexivity|]. constructor; [intros []|constructor].
+    - split.
+      + rewrite get_set, str_eqb_neq; [|intro E; apply Nd; auto]. simpl. rewrite str_eqb_refl. reflexivity.
+      + apply set_nodup. constructor; [intros []|constructor]. }
+  destruct C1 as [G1 N1].
+  destruct (opts_loop_inv m (p_dest p) _ _ _ (fun k I => proj2 (wf_opt_not_name p k W I)) H) as [G N].
+  split; [rewrite G; exact G1|apply N; exact N1].
+Qed.
+
+Lemma env_name_wins fuel os p m n cfg :
+  wf p -> p_has p = true -> named_in (p_dest p) m = Some n -> In n (p_names p) ->
+  parse fx fuel p {| i_env := os; i_entry := EEnv m |} = Ok cfg -> get (p_dest p) cfg = Some (NStr n).
+Proof.
+  intros W Hh Nm In_ H. unfold parse in H. simpl in H. destruct fuel as [|f]; [discriminate|]. simpl in H.
+  match type of H with match ?X with _ => _ end = _ => destruct X as [cfg0|] eqn:D; [|discriminate] end.
+  apply (parse_common_keeps_dest _ _ _ _ _ _ _ _ (NStr n) W Hh H); [|discriminate].
+  unfold defaults_and_environ in D.
+  match type of D with match ?X with _ => _ end = _ => destruct X as [cfg_env|] eqn:L; [|discriminate] end.
+  inversion D; subst cfg0.
+  destruct (load_env_vars_names _ p m n cfg_env W Hh Nm In_ L) as [G N].
+  apply merge_leaf; assumption.
+Qed.
+
 End Which.
 
 (* ---------- the property theorems, assembled ---------- *)
